@@ -14,3 +14,19 @@ Definition layout_scan (archid base ip0 : Z) (l : list (Z * Z)) : regs * list Z 
 
 Definition layout_scan_wf (archid base : Z) (iv : Z -> bool) (l : list (Z * Z)) : bool :=
   scan_wf_layout (arch_of archid) iv base (specs_of l).
+
+(* technique per frame (round 5): the mixed CFI / scan builder of theorem c04_recovers_chain.
+   A spec is (technique: 0 = CFI, otherwise scan; fill words; return address). *)
+Definition mspecs_of (l : list (Z * list Z * Z)) : list mspec :=
+  map (fun x => {| ms_tech := if fst (fst x) =? 0 then TkCfi else TkScan; ms_fill := snd (fst x); ms_ra := snd x |}) l.
+
+(* (context registers, stack words, expected chain as (instr, resume, sp, trust code)) *)
+Definition layout_mix (archid base ip0 : Z) (gp0 : list Z) (l : list (Z * list Z * Z)) : regs * list Z * list (Z * Z * Z * Z) :=
+  let a := arch_of archid in
+  let fs := mspecs_of l in
+  let '(r, v, _) := mix_layout a base ip0 gp0 fs in
+  (r, mix_words fs, map (fun f => (f_instr f, f_resume f, r_sp (f_regs f), trust_code (f_trust f))) (mix_chain a v gp0 base 0 fs)).
+
+(* the boolean precondition of the theorem, with the module lookup and instruction_seems_valid of the case's own modules *)
+Definition layout_mix_wf (archid base ip0 : Z) (mods : list modspec) (l : list (Z * list Z * Z)) : bool :=
+  mix_wf_layout (arch_of archid) (d_instr_valid mods) (d_module_at mods) base ip0 (mspecs_of l).
